@@ -52,7 +52,7 @@ func (c10) Runs(t Tier) int {
 }
 func (c10) RecordWidths() map[string]int { return nil }
 func (c10) RequiredProbes() []string {
-	return []string{"concurrent-builders", "sequential-builds-on-one-link-system", "default-chunker", "default-chunker-at-block-boundary", "mixed-link-lengths", "aliased-entries", "non-murmur-hasher", "file-fragmentation", "rabin-chunker", "dir-permutation", "sharded-permutation", "quick-builder", "distinct-commit-orders>=2", "nested-shards", "straddles-shard-threshold", "multi-level-file"}
+	return []string{"concurrent-builders", "sequential-builds-on-one-link-system", "seekable-source-after-header", "failed-build-before", "default-chunker", "default-chunker-at-block-boundary", "mixed-link-lengths", "aliased-entries", "non-murmur-hasher", "file-fragmentation", "rabin-chunker", "dir-permutation", "sharded-permutation", "quick-builder", "distinct-commit-orders>=2", "nested-shards", "straddles-shard-threshold", "multi-level-file"}
 }
 
 type c10Scenario struct {
@@ -166,6 +166,21 @@ func (c10) Run(ts *tape.Set, tier Tier) *Result {
 				return res
 			}
 		}
+		// the same content behind a header, handed over as a ReadSeeker that was
+		// already read past the header
+		{
+			hdr := make([]byte, 1+int(seed%37))
+			for i := range hdr {
+				hdr[i] = byte(seed >> uint(i%8))
+			}
+			whole := append(append([]byte(nil), hdr...), content...)
+			if !record("source=seekable-after-header", spec.Width, func(ls *ipld.LinkSystem) (ipld.Link, uint64, error) {
+				return builder.BuildUnixFSFile(source.NewSeekable(whole, int64(len(hdr))), spec.Chunker, ls)
+			}) {
+				return res
+			}
+			res.probe("seekable-source-after-header")
+		}
 		// a second random schedule and a repeat of the whole-read build
 		record("source=random#2", spec.Width, func(ls *ipld.LinkSystem) (ipld.Link, uint64, error) {
 			return builder.BuildUnixFSFile(source.New(content, source.Random, seed^0xfeed), spec.Chunker, ls)
@@ -277,6 +292,18 @@ func (c10) Run(ts *tape.Set, tier Tier) *Result {
 		case 2:
 			sc.Kind = "BuildUnixFSShardedDirectory"
 			res.probe("sharded-permutation")
+			if pseed%3 == 2 && len(names) >= 2 {
+				// an earlier build in this process that FAILS (the same name twice
+				// can never be placed: "too deep") must leave nothing behind
+				// that changes later builds
+				bad := mk(perm(len(names), pr))
+				bad = append(bad, bad[0], bad[len(bad)/2])
+				_, _, _, _, _ = runBuild(174, func(ls *ipld.LinkSystem) (ipld.Link, uint64, error) {
+					return builder.BuildUnixFSShardedDirectory(dspec.Fanout, mh.MURMUR3X64_64, bad, ls)
+				})
+				res.Execs++
+				res.probe("failed-build-before")
+			}
 			// the builder accepts any registered hash function for bucket
 			// selection; murmur3 is what readers understand, the others are
 			// part of its configuration space all the same
@@ -480,6 +507,10 @@ func c10Concurrent(ts *tape.Set, tier Tier, res *Result) *Result {
 	}
 	panics := sch.Run()
 	builder.DefaultLinksPerBlock = old
+	if sch.Deadlocked {
+		res.Violation = &Violation{Class: "c10/deadlock-in-concurrent-build", Msg: fmt.Sprintf("concurrent builds on one link system: every unfinished build is blocked inside the library (schedule %v)", sch.Trace)}
+		return res
+	}
 	res.Execs++
 	res.Events += len(st.Log)
 	var sig uint64
